@@ -427,7 +427,36 @@ def correspondence(ctx):
             ctx.count(k, v)
 
 
+def check_zone_object_decides(ctx):
+    """the generated component is a function of the zone OBJECT that is passed in (and the window), not of whichever
+    provider happens to be selected globally: a pytz zone and a ZoneInfo zone each give the same VTIMEZONE under
+    either global provider"""
+    import datetime as dt_
+    import zoneinfo
+    import icalendar
+    import pytz
+    from icalendar import Timezone
+    first, last = dt_.date(2000, 1, 1), dt_.date(2004, 1, 1)
+    for zid in ('Europe/Berlin', 'America/New_York', 'Asia/Kolkata', 'UTC'):
+        for kind, mk in (('pytz', lambda z: pytz.timezone(z)), ('zoneinfo', lambda z: zoneinfo.ZoneInfo(z))):
+            outs = {}
+            for glob in ('zoneinfo', 'pytz'):
+                getattr(icalendar, 'use_' + glob)()
+                try:
+                    outs[glob] = Timezone.from_tzinfo(mk(zid), zid, first, last).to_ical()
+                except Exception as e:  # noqa: BLE001
+                    outs[glob] = ('raised %s: %s' % (type(e).__name__, e)).encode()
+                finally:
+                    icalendar.use_zoneinfo()
+            ctx.evaluated(('zone-object-decides', zid, kind))
+            if outs['zoneinfo'] != outs['pytz']:
+                ctx.violation('global-provider-leaks-into-generation', {'zone': zid, 'object': kind},
+                              f'Timezone.from_tzinfo({kind} object of {zid}) gives {outs["zoneinfo"][:300]!r} while zoneinfo is '
+                              f'selected and {outs["pytz"][:300]!r} while pytz is selected')
+
+
 def oracle(ctx):
+    check_zone_object_decides(ctx)
     rs = run_jobs(ctx)
     lines = ['\t'.join([r['chain'][0]] + r['chain'][1]) for r in rs if r['chain']]
     try:
